@@ -164,6 +164,9 @@ inductive KeyKind where
   | i64     -- int64 `k - bias`, `intLayer`
   | str     -- fixed-width lower-case string, `stringLayer`
   | bytes   -- fixed-width `[]byte`, `blobLayer`
+  | int     -- Go `int` (as i64)
+  | uint    -- Go `uint` (as u64)
+  | sk      -- struct `{A string}`: ordered by, and layered on, its marshaled form
   deriving Repr, DecidableEq, Inhabited
 
 inductive ValKind where
@@ -190,13 +193,15 @@ def keyRaw (kk : KeyKind) (k : Nat) : Bytes :=
   match kk with
   | .str => strKey k
   | .bytes => bytesKey k
+  | .sk => str "{\"A\":" ++ quote (strKey k) ++ str "}"
   | _ => digits k
 
 /-- `json.Marshal(key)` -/
 def keyBytes (kk : KeyKind) (k : Nat) : Bytes :=
   match kk with
-  | .vk | .u64 => digits k
-  | .i64 => if k ≥ i64bias then digits (k - i64bias) else 45 :: digits (i64bias - k)
+  | .vk | .u64 | .uint => digits k
+  | .i64 | .int => if k ≥ i64bias then digits (k - i64bias) else 45 :: digits (i64bias - k)
+  | .sk => str "{\"A\":" ++ quote (strKey k) ++ str "}"
   | .str => quote (strKey k)
   | .bytes => quote (b64std (bytesKey k))
 
